@@ -146,7 +146,7 @@ Proof.
     pose proof (werun_meta c bd e _ ok0 e0 Eio I H0) as E0.
     pose proof (io_meta_files _ _ _ _ Eio I) as Ef0.
     assert (Em0 : dk_meta (e_disk e0) = dk_meta (e_disk e)).
-    { destruct (io_cases _ _ _ _ Eio) as [(_ & ->)|(_ & ->)]; reflexivity. }
+    { destruct (io_cases _ _ _ _ Eio eq_refl) as [(_ & ->)|(_ & ->)]; reflexivity. }
     destruct ok0; cbn [negb] in H.
     2:{ inversion H; subst. exists bd. split; [exact E0|]. split; [rewrite Ef0; exact Hnd|exact I]. }
     destruct (armed e0 && fx_list (e_fx e0)).
